@@ -61,7 +61,7 @@ class MO:
     """model order."""
 
     __slots__ = ("oid", "is_buy", "price", "vol", "vol0", "t", "ttl", "agent", "state", "filled", "terminal_volume",
-                 "last_fill_time")
+                 "last_fill_time", "asked")
 
     def __init__(self, oid, is_buy, price, vol, t, ttl, agent):
         self.oid = oid
@@ -76,6 +76,7 @@ class MO:
         self.filled = 0
         self.terminal_volume = None
         self.last_fill_time = None
+        self.asked = price  # the limit as submitted (before tick rounding); set by the harness
 
     def key(self) -> Tuple:
         """priority per C02: market orders first, better price, earlier acceptance, lower id."""
